@@ -1079,7 +1079,7 @@ func c20RunProc(fs []string) string {
 		return "ERR pack " + oneLine(err.Error())
 	}
 	os.Chmod(dst, 0755)
-	ctx, cancel := context.WithTimeout(context.Background(), 40*time.Second)
+	ctx, cancel := context.WithTimeout(context.Background(), 6*time.Second) // below the per-case limit
 	defer cancel()
 	cmd := exec.CommandContext(ctx, dst, args...)
 	cmd.Dir = cwd
@@ -1088,7 +1088,8 @@ func c20RunProc(fs []string) string {
 	out, err := cmd.CombinedOutput()
 	code := 0
 	if ctx.Err() != nil {
-		return fmt.Sprintf("proc srcmarker=%d timeout", srcmarker)
+		// reported like a hang of the harness: the check re-runs such a case alone before it is believed
+		return "HANG child process did not end within 6s"
 	}
 	if err != nil {
 		ee, ok := err.(*exec.ExitError)
@@ -1317,9 +1318,8 @@ func c20Gen(g *Gen) {
 		// the slice handed to Read becomes empty after the first block: the loop cannot make
 		// progress on any file longer than the buffer (model: hang). A few cases show it;
 		// the sweep would only wait for time-outs.
-		for _, n := range []int{0, f.bufSize, 4095} {
-			emit("no room in the buffer", true, n, 0, nil, "", 0, 3)
-		}
+		// (a hang costs the per-case time limit, and 10x that when the check re-runs it alone)
+		emit("no room in the buffer", true, 4095, 0, nil, "", 0, 3)
 		emit("no room in the buffer", false, 3*f.bufSize, 1, nil, "", 0, 0)
 		os.RemoveAll(c20Scratch)
 		return
@@ -1471,7 +1471,7 @@ func c20Gen(g *Gen) {
 
 func init() {
 	register("C20", &Prop{
-		Timeout:          60 * time.Second,
+		Timeout:          8 * time.Second, // a HANG is re-run alone by the check with 10x this limit
 		Setup:            c20Setup,
 		Gen:              c20Gen,
 		Run:              c20Run,
